@@ -26,6 +26,7 @@
 package main
 
 import (
+	"bytes"
 	"encoding/json"
 	"fmt"
 	"os"
@@ -211,6 +212,10 @@ var layouts = map[string][2][]int{
 func variants(kind string, buf []byte) []wireCase {
 	vs := []wireCase{{kind, vh.Hx(buf), "valid"}}
 	for cut := 0; cut < len(buf); cut++ {
+		// big encodings (boundary sizes 16383/16384…): the first and last 40 cuts and every 97th in between
+		if len(buf) > 700 && cut >= 40 && cut < len(buf)-40 && cut%97 != 0 {
+			continue
+		}
 		vs = append(vs, wireCase{kind, vh.Hx(buf[:cut]), "trunc"})
 	}
 	ly := layouts[kind]
@@ -242,13 +247,38 @@ func variants(kind string, buf []byte) []wireCase {
 	return vs
 }
 
+// fieldsOfSize builds a well-formed binary field list of exactly total bytes (0, or >= 3): pairs of a 1-byte key and a value of up
+// to 255 bytes.
+func fieldsOfSize(total int) field.Fields {
+	var sb strings.Builder
+	pair := func(cost int) { // cost = 2 + 1 + len(value)
+		sb.WriteByte(1)
+		sb.WriteByte('k')
+		sb.WriteByte(byte(cost - 3))
+		sb.WriteString(strings.Repeat("v", cost-3))
+	}
+	r := total
+	for r-258 >= 3 {
+		pair(258)
+		r -= 258
+	}
+	if r > 258 {
+		pair(100)
+		r -= 100
+	}
+	if r >= 3 {
+		pair(r)
+	}
+	return field.Fields(sb.String())
+}
+
 // generator pools
 var tagPool = []string{"a=b", "", "x=y,z=1", "{a=b}", "name=app1,ip=\"1.2.3.4\"", "a=\xff"}
 var msgPool = []string{"", "hello", "\x00\xff", "line\n", strings.Repeat("m", 130), "é", "\xef\xbf\xbd", "{\"k\":\"v\"}"}
 var tsPool = []int64{0, -1, 1, 1 << 62, -1 << 63, 1<<63 - 1, 1568000000000000000}
 
 func fieldPool(rng *vh.Rng) string {
-	basic := []string{"a=b", "", "c=d,e=f", `k="x,y"`, "{z=1}", "oops", `q="unclosed`, " sp = v ", "a=", "=b",
+	basic := []string{"a=b", "", "c=d,e=f", `k="x,y"`, "{z=1}", "oops", `q="unclosed`, " sp = v ", "a=", "=b", "kind=level", "kind=level,x=y", "level=x", "kind=other,level=x", "f=f",
 		strings.Repeat("k", 256) + "=v", "a=" + strings.Repeat("v", 255), "a=" + strings.Repeat("v", 256), "a=`raw`", `a="é\x41"`}
 	if rng.Chance(3, 4) {
 		return rng.PickS(basic)
@@ -303,8 +333,28 @@ type wpImpl struct {
 	evs []rpc.VerifC13Event
 }
 
-func implWire(c wireCase) (callRes, []rpc.VerifC13Event) {
-	buf := c.bytes()
+// pooledCopy places the request bytes at the start of a larger buffer whose remaining capacity holds poison bytes: this is how
+// the rpc server hands bodies to the handlers (bucketed pool: cap > len, stale bytes of earlier requests behind len). A Go
+// slice expression is bounded by the capacity, so a decoder that slices without comparing with len(buf) reads those bytes.
+func pooledCopy(b []byte) []byte {
+	full := make([]byte, len(b)+48)
+	copy(full, b)
+	for i := len(b); i < len(full); i++ {
+		full[i] = []byte{0x00, 0x01, 0x02, 0xA5}[i%4]
+	}
+	return full[:len(b)]
+}
+
+// exactCopy has cap == len (a body that fills its pool bucket exactly): any access behind len panics.
+func exactCopy(b []byte) []byte {
+	e := make([]byte, len(b))
+	copy(e, b)
+	return e[:len(b):len(b)]
+}
+
+func implWire(c wireCase) (callRes, []rpc.VerifC13Event) { return implWireBuf(c, exactCopy(c.bytes())) }
+
+func implWireBuf(c wireCase, buf []byte) (callRes, []rpc.VerifC13Event) {
 	var stored []rpc.VerifC13Event
 	r := guarded(func() (string, error) {
 		switch c.Kind {
@@ -413,6 +463,7 @@ func storedDecodable(fields string) (ok bool, why string) {
 // runWire compares a set of cases; returns the number of spec failures it reported
 func runWire(sec *vh.Section, cases []wireCase, verbose bool) {
 	impls := make([]callRes, len(cases))
+	pooled := make([]callRes, len(cases)) // the same bytes in a buffer with spare capacity holding poison bytes
 	stored := make([][]rpc.VerifC13Event, len(cases))
 	parallel(len(cases), func(i int) {
 		c := cases[i]
@@ -427,6 +478,7 @@ func runWire(sec *vh.Section, cases []wireCase, verbose bool) {
 			}
 		}
 		impls[i], stored[i] = implWire(c)
+		pooled[i], _ = implWireBuf(c, pooledCopy(c.bytes()))
 	})
 	// pass 1: the KV texts of the write packets
 	var l1 []string
@@ -531,6 +583,16 @@ func runWire(sec *vh.Section, cases []wireCase, verbose bool) {
 		if im.line() != want {
 			res.Mismatch(vh.Mismatch{Section: "wire", Function: modelOp[c.Kind], Input: c, Impl: im.line(), Model: a2[i]})
 		}
+		// the outcome must not depend on what lies behind len(buf): same bytes, spare capacity with poison bytes
+		if po := pooled[i]; po.line() != im.line() && !(po.Kind == "panic" && im.Kind == "panic") {
+			res.Dist(sec, c.Kind+"/"+c.How+"/pooled-differs")
+			res.SpecFail(vh.SpecFailure{Section: "wire", Kind: "reads-outside-buffer", Input: c,
+				Impl: "cap>len (poison behind len): " + po.line() + " || cap==len: " + im.line(), Spec: "the same outcome for the same request bytes", Model: a2[i],
+				ImplEqModel: false, What: "decoder " + modelOp[c.Kind] + " reads bytes behind the end of the request buffer (its outcome depends on the spare capacity of the buffer)"})
+			if po.line() != want {
+				res.Mismatch(vh.Mismatch{Section: "wire", Function: modelOp[c.Kind] + " (buffer with spare capacity)", Input: c, Impl: po.line(), Model: a2[i]})
+			}
+		}
 	}
 	for k, b := range bad {
 		c := cases[b.i]
@@ -587,9 +649,22 @@ func sectionWire(rng *vh.Rng) {
 		}
 		if i%3 == 2 {
 			f, _ := field.NewFieldsFromKVString(rng.PickS([]string{"", "a=b", "k=v,x=y"}))
-			le := model.LogEvent{Timestamp: rng.PickI64(tsPool), Msg: []byte(rng.PickS(msgPool)), Fields: f}
+			msg := []byte(rng.PickS(msgPool))
+			if i%12 == 2 {
+				// sizes around the varint boundaries of the two length prefixes
+				f = fieldsOfSize(rng.PickI([]int{0, 3, 126, 127, 128, 129, 16382, 16383, 16384, 16385, 20000}))
+				msg = bytes.Repeat([]byte{'m'}, rng.PickI([]int{0, 5, 127, 128, 16383, 16384}))
+			}
+			le := model.LogEvent{Timestamp: rng.PickI64(tsPool), Msg: msg, Fields: f}
 			eb := make([]byte, le.WritableSize())
-			le.Marshal(eb)
+			// what partition's iwrapper does: a buffer of WritableSize() bytes, Marshal into it (iwrapper ignores the error)
+			n, merr := le.Marshal(eb)
+			res.Dist(sec, fmt.Sprintf("ev/marshal fields=%d msg=%d", len(f), len(msg)))
+			if merr != nil || n != len(eb) {
+				res.SpecFail(vh.SpecFailure{Section: "wire", Kind: "stored-record-undecodable", Input: map[string]interface{}{"fields_bytes": len(f), "msg_bytes": len(msg), "fields": vh.HxS(string(f))},
+					Impl: fmt.Sprintf("WritableSize=%d, Marshal wrote %d, err=%v", len(eb), n, merr), Spec: "Marshal fills a buffer of WritableSize() bytes without error",
+					What: "LogEvent.WritableSize() does not match what Marshal needs: the record buffer the partition sizes with it (iwrapper ignores Marshal's error) is stored truncated and no later read of the partition can decode it"})
+			}
 			cases = append(cases, variants("ev", eb)...)
 			encLines = append(encLines, fmt.Sprintf("ev.marshal %d %s %s", uint64(le.Timestamp), vh.Hx(le.Msg), vh.HxS(string(f))))
 			encImpl, encCases = append(encImpl, vh.Hx(eb)), append(encCases, wireCase{"ev", vh.Hx(eb), "encode"})
